@@ -1,17 +1,24 @@
+mod c01b;
 mod c06;
+mod c10;
 mod c13;
 mod c14;
 mod c15;
+mod c16;
 mod net;
+mod tunnel;
 mod world;
 
 use vcore::SubCheck;
 
 fn main() {
     let mut checks: Vec<Box<dyn SubCheck>> = vec![];
+    checks.extend(c01b::checks());
     checks.extend(c06::checks());
+    checks.extend(c10::checks());
     checks.extend(c13::checks());
     checks.extend(c14::checks());
     checks.extend(c15::checks());
+    checks.extend(c16::checks());
     std::process::exit(vcore::driver("vp-e2e", checks));
 }
